@@ -390,7 +390,9 @@ def Listener_handleConnection : List String := [
   "if !ok",
   "return",
   "end",
-  "tunnelID, frameType, data, err := ReadFrame(tcpConn)",
+  "_ = tcpConn.SetReadDeadline(time.Now().Add(crossNodeFirstFrameTimeout))",
+  "tunnelID, frameType, data, err := ReadFrameFromReader(bufio.NewReader(tcpConn))",
+  "_ = tcpConn.SetReadDeadline(time.Time{})",
   "if err != nil",
   "return",
   "end",
